@@ -257,7 +257,7 @@ def check(ctx):
         for v in values:
             # the value every chain falls back to when nothing else matches (checked to be what the scanner means by it)
             implied = (key == 'direction' and v == 'in') or \
-                (key == 'when' and v == 'cleanup' and any((C.member_path(l) or '').endswith('->run_cleanup') and C.int_value(r) == 1
+                (key == 'when' and v == 'cleanup' and any((C.member_path(l) or '').endswith('->run_cleanup') and C.int_value(r) != 0
                                                           for l, r, s_ in C.assignments(tu.body(f))))
             r3.check(v in lits or implied, '%s="%s"' % (key, v), GP, tu.line(f),
                      'g-ir-scanner writes %s="%s" but %s() only recognises %s: the value is silently decoded as something else'
